@@ -78,6 +78,8 @@ struct Layout {
     /// make the VM's collection of ranges large (hundreds of registrations on one VM); half are
     /// registered before the real ranges, half after
     decoys: Vec<Range<u64>>,
+    /// adjacent layouts: packet and metadata buffer are windows into this one mapping
+    _parent: Option<GuardBuf>,
     desc: String,
 }
 
@@ -279,12 +281,26 @@ fn make_layout(rng: &mut Rng, cl: bool) -> Layout {
         *rng.pick(&[0usize, 1, 7, 8, 9, 64, 4096])
     };
     let end_aligned = rng.chance(1, 2);
-    let pkt = if plen == 0 { None } else { Some(GuardBuf::new(plen, end_aligned, cl)) };
-    let mbuff = if kind == Kind::Mbuff {
-        let ml = if !cfg!(miri) && rng.chance(1, 10) { *rng.pick(&[4096usize, 65537]) } else { *rng.pick(&[1usize, 8, 32]) };
-        Some(GuardBuf::new(ml, !end_aligned, cl))
+    // one metadata-VM layout in three: the two buffers are ADJACENT (what `split_at_mut` gives a
+    // caller) - metadata buffer directly below or directly above the packet
+    let adjacent = if kind == Kind::Mbuff && plen > 0 && plen <= 4096 && !cfg!(miri) && rng.chance(1, 3) { 1 + rng.below(2) as u8 } else { 0 };
+    let mut parent = None;
+    let (pkt, mbuff) = if adjacent != 0 {
+        let ml = *rng.pick(&[1usize, 8, 16, 32]);
+        let p = GuardBuf::new(plen + ml, end_aligned, cl);
+        let (po, mo) = if adjacent == 1 { (ml, 0) } else { (0, plen) };
+        let r = (Some(GuardBuf::view(&p, po, plen)), Some(GuardBuf::view(&p, mo, ml)));
+        parent = Some(p);
+        r
     } else {
-        None
+        let pkt = if plen == 0 { None } else { Some(GuardBuf::new(plen, end_aligned, cl)) };
+        let mbuff = if kind == Kind::Mbuff {
+            let ml = if !cfg!(miri) && rng.chance(1, 10) { *rng.pick(&[4096usize, 65537]) } else { *rng.pick(&[1usize, 8, 32]) };
+            Some(GuardBuf::new(ml, !end_aligned, cl))
+        } else {
+            None
+        };
+        (pkt, mbuff)
     };
     let extra = GuardBuf::new_centered(64, 256, cl);
     let e = extra.addr();
@@ -384,7 +400,8 @@ fn make_layout(rng: &mut Rng, cl: bool) -> Layout {
         }
     }
     let desc = format!("{}:pkt{}{}:mbuff{}:{}{}", kind.name(), plen, if end_aligned { "E" } else { "S" }, mbuff.as_ref().map(|m| m.len()).unwrap_or(0), rdesc, if decoys.is_empty() { String::new() } else { format!("+{}decoy-ranges", decoys.len()) });
-    Layout { kind, pkt, mbuff, extra, ranges, decoys, desc }
+    let desc = if adjacent != 0 { format!("{desc}:mbuff-adjacent-{}", if adjacent == 1 { "below" } else { "above" }) } else { desc };
+    Layout { kind, pkt, mbuff, extra, ranges, decoys, _parent: parent, desc }
 }
 
 /// An access relative to the fixed VM's internal buffer (offsets (0, 8): it must hold two pointers,
@@ -866,6 +883,9 @@ pub fn run(a: &Args, rep: &mut Report, cl: bool) {
                 m.fill(&bytes);
                 m.reset_canary();
             }
+            if let Some(pa) = &l._parent {
+                pa.reset_canary();
+            }
             let bytes: Vec<u8> = (0..64).map(|i| (i as u8).wrapping_mul(29).wrapping_add(11)).collect();
             l.extra.fill(&bytes);
             l.extra.reset_canary();
@@ -873,11 +893,16 @@ pub fn run(a: &Args, rep: &mut Report, cl: bool) {
         reset(&l);
         let arenas = |l: &Layout| -> Vec<(u64, Vec<u8>)> {
             let mut v = Vec::new();
-            if let Some(p) = &l.pkt {
-                v.push((p.span().0, p.span_bytes()));
-            }
-            if let Some(m) = &l.mbuff {
-                v.push((m.span().0, m.span_bytes()));
+            if let Some(pa) = &l._parent {
+                // adjacent layout: one mapping holds both buffers (and the canaries around them)
+                v.push((pa.span().0, pa.span_bytes()));
+            } else {
+                if let Some(p) = &l.pkt {
+                    v.push((p.span().0, p.span_bytes()));
+                }
+                if let Some(m) = &l.mbuff {
+                    v.push((m.span().0, m.span_bytes()));
+                }
             }
             v.push((l.extra.span().0, l.extra.span_bytes()));
             v
